@@ -453,7 +453,7 @@ pub fn image_geometry() -> BoxedStrategy<(Option<f64>, Option<f64>, Option<(f64,
     let size = prop_oneof![
         3 => Just(None),
         5 => value(1.0, 40.0).prop_map(Some),
-        1 => prop_oneof![Just(0.0f64), Just(0.25), Just(0.5), Just(1e-9), Just(1000.0), Just(1e9)].prop_map(Some),
+        1 => prop_oneof![Just(0.0f64), Just(-0.0f64), Just(0.25), Just(0.5), Just(1e-9), Just(1e-300), Just(1000.0), Just(1e9), Just(1e300)].prop_map(Some),
     ];
     (size, 0usize..12, value(-12.0, 12.0), any::<[bool; 2]>(), value(-20.0, 220.0), value(-20.0, 220.0), 0usize..8).prop_map(|(size, gsel, gabs, present, x, y, psel)| {
         let s = size.unwrap_or(5.0);
@@ -469,6 +469,8 @@ pub fn image_geometry() -> BoxedStrategy<(Option<f64>, Option<f64>, Option<(f64,
                 5 => 0.0,
                 6 => s,
                 7 => 1e6,
+                8 => -0.0,
+                9 => 1e300,
                 _ => gabs,
             })
         };
@@ -480,6 +482,8 @@ pub fn image_geometry() -> BoxedStrategy<(Option<f64>, Option<f64>, Option<(f64,
                 1 => (x, 0.0),
                 2 => (0.0, 0.0),
                 3 => (-x, y),
+                5 => (-0.0, y),
+                6 => (x, 1e300),
                 _ => (x, y),
             })
         };
